@@ -195,8 +195,163 @@ def generate(repo):
     return '\n'.join(out) + '\n', info
 
 
+# ---------------------------------------------------------------------------------- rebin.py
+
+def rexpr(node, env):
+    """integer expression of rebin.py: like zexpr, plus d[k] / d0[k] / len(d) / len(d0) and int(floor(e))"""
+    if isinstance(node, ast.Subscript) and isinstance(node.value, ast.Name) and is_name(node.slice, 'k') \
+            and node.value.id in ('d', 'd0'):
+        return env[node.value.id + 'k']
+    if isinstance(node, ast.Call) and is_name(node.func, 'len') and len(node.args) == 1 \
+            and isinstance(node.args[0], ast.Name) and node.args[0].id in ('d', 'd0'):
+        return env['len_' + node.args[0].id]
+    if isinstance(node, ast.Call) and isinstance(node.func, ast.Name) and node.func.id in ('int', 'floor') \
+            and len(node.args) == 1 and not node.keywords:
+        return rexpr(node.args[0], env)      # operands are integers here, so int()/floor() are the identity
+    if isinstance(node, ast.Constant) or isinstance(node, ast.Name):
+        return zexpr(node, env)
+    if isinstance(node, ast.BinOp):
+        op = BIN.get(type(node.op))
+        if op is None:
+            raise P.Unrecognised('operator %s' % type(node.op).__name__)
+        return '(%s %s %s)' % (op, rexpr(node.left, env), rexpr(node.right, env))
+    raise P.Unrecognised('node %s' % type(node).__name__)
+
+
+RCMP = dict(CMP)
+
+
+def rbexpr(node, env):
+    if isinstance(node, ast.Compare) and len(node.ops) == 1:
+        l, r = rexpr(node.left, env), rexpr(node.comparators[0], env)
+        if isinstance(node.ops[0], ast.NotEq):
+            return '(negb (Z.eqb %s %s))' % (l, r)
+        if type(node.ops[0]) in RCMP:
+            return '(%s %s %s)' % (RCMP[type(node.ops[0])], l, r)
+    raise P.Unrecognised('condition %s' % ast.dump(node)[:60])
+
+
+def raises_value_error(stmts):
+    return len(stmts) == 1 and isinstance(stmts[0], ast.Raise) and isinstance(stmts[0].exc, ast.Call) \
+        and is_name(stmts[0].exc.func, 'ValueError')
+
+
+def guarded_raise(stmts, env):
+    """[if TEST: raise ValueError(...)] -> TEST"""
+    if len(stmts) == 1 and isinstance(stmts[0], ast.If) and raises_value_error(stmts[0].body) and not stmts[0].orelse:
+        return rbexpr(stmts[0].test, env)
+    raise P.Unrecognised('expected `if ...: raise ValueError`')
+
+
+def is_range_loop(st, var, over):
+    return isinstance(st, ast.For) and is_name(st.target, var) and isinstance(st.iter, ast.Call) \
+        and is_name(st.iter.func, 'range') and len(st.iter.args) == 1 and ast.dump(st.iter.args[0]) == ast.dump(over) \
+        and not st.orelse
+
+
+def three_way(st):
+    """if A: X elif B: Y else: Z  ->  (A, X, B, Y, Z)"""
+    if not (isinstance(st, ast.If) and len(st.orelse) == 1 and isinstance(st.orelse[0], ast.If) and st.orelse[0].orelse):
+        raise P.Unrecognised('if / elif / else expected')
+    e = st.orelse[0]
+    return st.test, st.body, e.test, e.body, e.orelse
+
+
+def slice_assign(st, target):
+    """target[k] = slice(A, B) -> (A, B) ast nodes"""
+    if isinstance(st, ast.Assign) and len(st.targets) == 1 and isinstance(st.targets[0], ast.Subscript) \
+            and is_name(st.targets[0].value, target) and is_name(st.targets[0].slice, 'k') \
+            and isinstance(st.value, ast.Call) and is_name(st.value.func, 'slice') and len(st.value.args) == 2:
+        return st.value.args
+    return None
+
+
+def generate_rebin(repo):
+    info = {'recognised': True, 'detail': []}
+    try:
+        src = open(os.path.join(repo, 'pydl/rebin.py')).read()
+        fn = P.find_function(ast.parse(src), 'rebin')
+        body = [s for s in fn.body if not (isinstance(s, ast.Expr) and isinstance(s.value, ast.Constant))
+                and not isinstance(s, (ast.Import, ast.ImportFrom))]
+        out = ['(* GENERATED by translate/c14.py from pydl/rebin.py -- do not edit *)',
+               'From Coq Require Import ZArith Bool.', 'Open Scope Z_scope.', '']
+        # d0 = x.shape
+        v = assign_of(body[0], 'd0')
+        if not (isinstance(v, ast.Attribute) and is_name(v.value, 'x') and v.attr == 'shape'):
+            raise P.Unrecognised('d0 = x.shape expected')
+        # rank test
+        st = body[1]
+        if not (isinstance(st, ast.If) and raises_value_error(st.body) and not st.orelse):
+            raise P.Unrecognised('rank test expected')
+        out.append('Definition rebin_rank_rejects (len_d0 len_d : Z) : bool := %s.\n'
+                   % rbexpr(st.test, {'len_d0': 'len_d0', 'len_d': 'len_d'}))
+        # per-axis divisibility test
+        env = {'d0k': 'd0k', 'dk': 'dk'}
+        lenarg = ast.parse('len(d0)').body[0].value
+        st = body[2]
+        if not (is_range_loop(st, 'k', lenarg) and len(st.body) == 1):
+            raise P.Unrecognised('validation loop expected')
+        A, X, B, Y, Z = three_way(st.body[0])
+        if not (len(Y) == 1 and isinstance(Y[0], ast.Pass)):
+            raise P.Unrecognised('`pass` expected for equal extents')
+        out.append('Definition rebin_axis_rejects (d0k dk : Z) : bool :=\n  if %s then %s else if %s then false else %s.\n'
+                   % (rbexpr(A, env), guarded_raise(X, env), rbexpr(B, env), guarded_raise(Z, env)))
+        # xx = x.copy(); new_shape = list(d0); main loop
+        loop = body[5] if len(body) > 5 else None
+        if loop is None or not is_range_loop(loop, 'k', lenarg):
+            raise P.Unrecognised('main loop expected')
+        tw = [s for s in loop.body if isinstance(s, ast.If)]
+        if len(tw) != 1:
+            raise P.Unrecognised('one if/elif/else in the main loop expected')
+        A, X, B, Y, Z = three_way(tw[0])
+        out.append('Definition rebin_is_expand (d0k dk : Z) : bool := %s.' % rbexpr(A, env))
+        out.append('Definition rebin_is_keep (d0k dk : Z) : bool := %s.\n' % rbexpr(B, env))
+        # shrinking branch
+        fv = assign_of(Z[0], 'f')
+        if fv is None or len(Z) != 2 or not is_range_loop(Z[1], 'i', ast.parse('d[k]').body[0].value):
+            raise P.Unrecognised('shrink branch: f = ...; for i in range(d[k]) expected')
+        out.append('Definition rebin_shrink_f (d0k dk : Z) : Z := %s.' % rexpr(fv, env))
+        ib = Z[1].body
+        if not (len(ib) == 2 and slice_assign(ib[0], 'sliceobj') is not None and isinstance(ib[1], ast.If)
+                and is_name(ib[1].test, 'sample')):
+            raise P.Unrecognised('shrink loop body')
+        env2 = {'f': 'f', 'i': 'i'}
+        smp, blk = ib[1].body, ib[1].orelse
+        # sample: fp = int(floor(f*i)); sliceobj0[k] = slice(fp, fp + 1); r[...] = xx[...]
+        fpv = assign_of(smp[0], 'fp')
+        sl = slice_assign(smp[1], 'sliceobj0') if len(smp) == 3 else None
+        if fpv is None or sl is None or not is_name(sl[0], 'fp') or rexpr(sl[1], {'fp': 'fp'}) != '(Z.add fp 1)':
+            raise P.Unrecognised('shrink sample branch')
+        out.append('Definition rebin_shrink_pick (f i : Z) : Z := %s.' % rexpr(fpv, env2))
+        # block: sliceobj0[k] = slice(int(f*i), int(f*(i+1))); rshape; rr = xx[...].sum(k)...; if int kind: rr//f else rr/f
+        sl = slice_assign(blk[0], 'sliceobj0') if len(blk) == 4 else None
+        if sl is None:
+            raise P.Unrecognised('shrink block branch')
+        out.append('Definition rebin_shrink_lo (f i : Z) : Z := %s.' % rexpr(sl[0], env2))
+        out.append('Definition rebin_shrink_hi (f i : Z) : Z := %s.' % rexpr(sl[1], env2))
+        last = blk[3]
+        ok = isinstance(last, ast.If) and len(last.body) == 1 and len(last.orelse) == 1
+        if ok:
+            vi, vf = last.body[0].value, last.orelse[0].value
+            ok = isinstance(vi, ast.BinOp) and isinstance(vi.op, ast.FloorDiv) and is_name(vi.left, 'rr') and is_name(vi.right, 'f') \
+                and isinstance(vf, ast.BinOp) and isinstance(vf.op, ast.Div) and is_name(vf.left, 'rr') and is_name(vf.right, 'f') \
+                and "kind == 'u'" in ast.unparse(last.test) and "kind == 'i'" in ast.unparse(last.test)
+        if not ok:
+            raise P.Unrecognised('shrink: integer kinds -> rr//f, else rr/f expected')
+        out.append('')
+        out.append('Definition rebin_recognised : bool := true.')
+    except (P.Unrecognised, SyntaxError, IndexError, OSError, KeyError) as e:
+        info['recognised'] = False
+        info['detail'].append('%s: %s' % (type(e).__name__, e))
+        return None, info
+    return '\n'.join(out) + '\n', info
+
+
 if __name__ == '__main__':
     import sys
     text, info = generate(sys.argv[1] if len(sys.argv) > 1 else '/repo')
+    print(info)
+    print(text)
+    text, info = generate_rebin(sys.argv[1] if len(sys.argv) > 1 else '/repo')
     print(info)
     print(text)
